@@ -177,4 +177,48 @@ def run(rd, emit, log, enum_values, ti_default):
     if ex is None: log.append('C17: ServiceNameComposer::ParseName not recognised')
     body += "(* true = exactly two '!'-separated parts are required; false = at least two, the rest is dropped *)\n"
     body += 'Definition f_cw_service_name_exact : option bool := %s.\n' % ('Some ' + ex if ex else 'None')
+    # ---- ConfigObjectUtility::CreateObject: which registry the "already exists" pre-check consults
+    cu = rd('lib/remote/configobjectutility.cpp')
+    b = fn_body(cu, r'bool\s+ConfigObjectUtility::CreateObject\s*\(')
+    pre = None
+    if b:
+        m = re.search(r'already exists', b)
+        if m:
+            head = b[:m.start()]
+            i = head.rfind('if (')
+            cond = head[i:] if i >= 0 else ''
+            # the condition of the innermost `if` in front of the error message
+            if re.search(r'GetObject\s*\(\s*fullName\s*\)', cond) and 'ConfigItem::' not in cond:
+                pre = 'true'
+            elif re.search(r'ConfigItem::GetByTypeAndName\s*\(', cond) and 'GetObject' not in cond:
+                pre = 'false'
+    if pre is None: log.append('C17: CreateObject duplicate pre-check not recognised')
+    body += '(* true = the "already exists" pre-check asks the OBJECT registry (ConfigType::GetObject(fullName)); false = the config item registry *)\n'
+    body += 'Definition f_cw_precheck_by_object : option bool := %s.\n' % ('Some ' + pre if pre else 'None')
+    # ---- DeleteObjectHelper: the recursive helper itself removes the file of every _api object it unregisters
+    b = fn_body(cu, r'bool\s+ConfigObjectUtility::DeleteObjectHelper\s*\(')
+    b2 = fn_body(cu, r'bool\s+ConfigObjectUtility::DeleteObject\s*\(')
+    rm = None
+    rx = r'Utility::Remove\s*\(\s*GetExistingObjectConfigPath\s*\(\s*object\s*\)\s*\)'
+    if b and b2:
+        if re.search(rx, b) and not re.search(rx, b2): rm = 'true'
+        elif re.search(rx, b2) and not re.search(rx, b): rm = 'false'
+    if rm is None: log.append('C17: file removal in DeleteObjectHelper not recognised')
+    body += '(* true = DeleteObjectHelper (the recursive part) removes the file of each _api object; false = only DeleteObject (top level) does *)\n'
+    body += 'Definition f_cw_delete_helper_removes_file : option bool := %s.\n' % ('Some ' + rm if rm else 'None')
+    # ---- the five host!name | host!service!name composers: are more than three parts / an empty middle part rejected?
+    ex3 = []
+    for fn, cls in (('notification', 'Notification'), ('dependency', 'Dependency'), ('scheduleddowntime', 'ScheduledDowntime'),
+                    ('comment', 'Comment'), ('downtime', 'Downtime')):
+        b = fn_body(rd('lib/icinga/%s.cpp' % fn), r'Dictionary::Ptr\s+%sNameComposer::ParseName\s*\(' % cls)
+        v = None
+        if b and re.search(r'name\.Split\("!"\)', b) and re.search(r'tokens\.size\(\)\s*<\s*2', b):
+            guard = b[:b.find('new Dictionary')] if 'new Dictionary' in b else b
+            if re.search(r'tokens\.size\(\)\s*>\s*3', guard) and re.search(r'tokens\[1\]\.IsEmpty\(\)', guard): v = 'true'
+            elif not re.search(r'tokens\.size\(\)\s*(>|!=|==)\s*3', guard) and 'IsEmpty' not in guard: v = 'false'
+        ex3.append(v)
+    c3 = ex3[0] if all(v is not None and v == ex3[0] for v in ex3) else None
+    if c3 is None: log.append('C17: composite NameComposer::ParseName functions not recognised / not uniform: %s' % ex3)
+    body += "(* Notification/Dependency/ScheduledDowntime/Comment/Downtime ParseName: true = at most three '!'-separated parts and a non-empty middle part; false = further parts dropped *)\n"
+    body += 'Definition f_cw_composite_name_exact : option bool := %s.\n' % ('Some ' + c3 if c3 else 'None')
     emit('Facts_c17.v', body)
